@@ -16,6 +16,8 @@ Theorem C05_k16_handlers_as_modelled :
   union_handlers = [["Exception"]; ["Exception"]] /\         (* Errs.try_pass in union_first / union_fallbacks *)
   discr_field_handlers =
     [["KeyError"];                                            (* tag lookup -> MissingDiscriminatorError *)
+     ["TypeError"];                                           (* tag lookup on a non-mapping -> ValueError *)
+     ["TypeError"];                                           (* hash(tag) -> SuitableVariantNotFoundError *)
      ["KeyError"; "AttributeError"];                          (* first call -> register and retry (Errs.discr_call) *)
      ["KeyError"];                                            (* registration loop: variant without own tag *)
      ["KeyError"]] /\                                         (* retry -> SuitableVariantNotFoundError *)
@@ -46,8 +48,8 @@ Print Assumptions C05_k16_documented_pass_through.
 Theorem C05_k16_model_patterns : forall e, named_exn e = true ->
   is_attribute_error e = catches hier (nth 0 frame_handlers []) (cls_of_exn e) /\
   (match e with XKeyError | XAttributeError => true | _ => false end)
-    = catches hier (nth 1 discr_field_handlers []) (cls_of_exn e) /\
-  is_key_error e = catches hier (nth 3 discr_field_handlers []) (cls_of_exn e) /\
+    = catches hier (nth 3 discr_field_handlers []) (cls_of_exn e) /\
+  is_key_error e = catches hier (nth 5 discr_field_handlers []) (cls_of_exn e) /\
   is_key_error e = catches hier (nth 0 discr_field_handlers []) (cls_of_exn e) /\
   is_exception e = catches hier (nth 0 union_handlers []) (cls_of_exn e).
 Proof. intros e He. destruct e; try discriminate He; repeat split; vm_compute; reflexivity. Qed.
